@@ -696,6 +696,18 @@ class _ConstSubst(ast.NodeTransformer):
         self.local |= {h.name for h in ast.walk(node) if isinstance(h, ast.ExceptHandler) and h.name}
         self.cv = _ConstValue(ix, fi, self.local)
         self.changed = False
+        # local names bound exactly once to a tuple / list display (and never stored into)
+        cnt, val = {}, {}
+        for n in ast.walk(node):
+            if isinstance(n, ast.Name) and isinstance(n.ctx, (ast.Store, ast.Del)):
+                cnt[n.id] = cnt.get(n.id, 0) + 1
+            if isinstance(n, ast.Assign) and len(n.targets) == 1 and isinstance(n.targets[0], ast.Name) and isinstance(n.value, (ast.Tuple, ast.List)):
+                val[n.targets[0].id] = n.value
+            if isinstance(n, (ast.Subscript, ast.Attribute)) and isinstance(n.ctx, (ast.Store, ast.Del)) and isinstance(n.value, ast.Name):
+                cnt[n.value.id] = cnt.get(n.value.id, 0) + 2
+            if isinstance(n, ast.Call) and isinstance(n.func, ast.Attribute) and n.func.attr in MUTATING and isinstance(n.func.value, ast.Name):
+                cnt[n.func.value.id] = cnt.get(n.func.value.id, 0) + 2
+        self._single_display = {k: v for k, v in val.items() if cnt.get(k) == 1}
 
     def _module_const(self, name):
         if name in self.local:
@@ -781,9 +793,38 @@ class _ConstSubst(ast.NodeTransformer):
 
     visit_Tuple = visit_List
 
+    def visit_Dict(self, node):
+        node = self.generic_visit(node)
+        # {"a": x, **{"b": y}, "c": z} is {"a": x, "b": y, "c": z}
+        if any(k is None and isinstance(v, ast.Dict) and None not in v.keys for k, v in zip(node.keys, node.values)):
+            ks, vs = [], []
+            for k, v in zip(node.keys, node.values):
+                if k is None and isinstance(v, ast.Dict) and None not in v.keys:
+                    ks.extend(v.keys)
+                    vs.extend(v.values)
+                else:
+                    ks.append(k)
+                    vs.append(v)
+            node.keys, node.values = ks, vs
+            self.changed = True
+        return node
+
     def visit_Call(self, node):
         node = self.generic_visit(node)
         node.args = self._splice(node.args)
+        # dict(zip(("a", "b"), (x, y))) is {"a": x, "b": y} (the value tuple written in place or bound once to a local name)
+        for kw in node.keywords:
+            v = kw.value
+            if isinstance(v, ast.Call) and isinstance(v.func, ast.Name) and v.func.id == "dict" and len(v.args) == 1 and not v.keywords \
+                    and isinstance(v.args[0], ast.Call) and isinstance(v.args[0].func, ast.Name) and v.args[0].func.id == "zip" \
+                    and len(v.args[0].args) == 2 and not v.args[0].keywords:
+                ks, vs = v.args[0].args
+                if isinstance(vs, ast.Name):
+                    vs = self._single_display.get(vs.id, vs)
+                if isinstance(ks, (ast.Tuple, ast.List)) and isinstance(vs, (ast.Tuple, ast.List)) and len(ks.elts) == len(vs.elts) \
+                        and all(isinstance(k, ast.Constant) for k in ks.elts) and not any(isinstance(x, ast.Starred) for x in vs.elts):
+                    kw.value = ast.copy_location(ast.Dict(keys=list(ks.elts), values=[copy.deepcopy(x) for x in vs.elts]), v)
+                    self.changed = True
         # f(**{"a": x, "b": y}) and f(**{k: d[k] for k in ("a", "b")}) are f(a=x, b=y) / f(a=d["a"], b=d["b"])
         kws = []
         for kw in node.keywords:
@@ -987,10 +1028,34 @@ class _Positionalise(ast.NodeTransformer):
         return node
 
 
+class _PostNorm(ast.NodeTransformer):
+    """after helpers were substituted: the splices that the substitution of a parameter by a display makes possible
+    ({..., **{"b": y}}, f(**{"a": x}), [*(..)], display[const])"""
+    _single_display = {}
+
+    def __init__(self):
+        self.changed = False
+
+    visit_Dict = None
+    visit_Call = None
+    visit_List = None
+    visit_Tuple = None
+    visit_Subscript = None
+
+
 def flatten_function(ix, fi, depth=0, stack=()):
     """normalised copy of fi's syntax tree (the raw tree itself when nothing changes): helpers substituted, keyword arguments
     of calls to repository functions bound to positions"""
     raw = _flatten_helpers(ix, fi, depth, stack)
+    if raw is not fi.raw_node and raw is not getattr(fi, "_constsub", None):
+        pn = _PostNorm()
+        try:
+            raw2 = pn.visit(raw)
+            if pn.changed:
+                ast.fix_missing_locations(raw2)
+                raw = raw2
+        except RecursionError:
+            pass
     if any(isinstance(n, ast.Call) and n.keywords for n in ast.walk(raw)):
         node = copy.deepcopy(raw) if (raw is fi.raw_node or raw is getattr(fi, "_constsub", None)) else raw
         t = _Positionalise(ix, fi)
@@ -1030,3 +1095,7 @@ def _flatten_helpers(ix, fi, depth=0, stack=()):
     node.body = [s for s in node.body if not (isinstance(s, ast.FunctionDef) and s.name in local_defs and s.name not in used)] or [ast.Pass()]
     ast.fix_missing_locations(node)
     return node
+
+
+for _m in ("visit_Dict", "visit_Call", "visit_List", "visit_Tuple", "visit_Subscript", "_splice"):
+    setattr(_PostNorm, _m, getattr(_ConstSubst, _m))
